@@ -70,34 +70,30 @@ EVALUATED = [
     U("Evaluated::negate", EV, [r"impl<'ctx> Evaluated<'ctx>", r"pub fn negate\b"], fn="negate", wrap=IMPL_EV,
       rewrites=[RET()],
       contract="""
-        ensures r.sem() == (match self.sem() { EV::Num(x) => EV::Num(-x), EV::Com(m) => EV::Com(mneg(m)) }),   // @Evaluated.negate
+        ensures r.sem() == ev_neg(self.sem()),   // @Evaluated.negate
 """),
     U("Evaluated::check_add", EV, [r"impl<'ctx> Evaluated<'ctx>", r"pub fn check_add\b"], fn="check_add", wrap=IMPL_EV,
       rewrites=[RET()],
       contract="""
         ensures
-            (self.sem() matches EV::Num(a) && rhs.sem() matches EV::Num(b)) ==> (r matches Ok(v) && v.sem() == EV::Num(self.sem()->Num_0 + rhs.sem()->Num_0)),   // @Evaluated.check_add.numbers
-            (self.sem() matches EV::Com(a) && rhs.sem() matches EV::Com(b)) ==> (r matches Ok(v) && v.sem() == EV::Com(madd(self.sem()->Com_0, rhs.sem()->Com_0))),   // @Evaluated.check_add.commodities_pointwise
+            ev_add(self.sem(), rhs.sem()) matches Some(o) ==> (r matches Ok(v) && v.sem() == o),                    // @Evaluated.check_add.exact
             // adding a bare number to a commodity amount is ill-typed
-            ((self.sem() is Num) != (rhs.sem() is Num)) ==> r == Err::<Self, EvalError>(EvalError::UnmatchingOperation),   // @Evaluated.check_add.rejects_mixed
+            ev_add(self.sem(), rhs.sem()) is None ==> r == Err::<Self, EvalError>(EvalError::UnmatchingOperation),   // @Evaluated.check_add.rejects_mixed
 """),
     U("Evaluated::check_sub", EV, [r"impl<'ctx> Evaluated<'ctx>", r"pub fn check_sub\b"], fn="check_sub", wrap=IMPL_EV,
       rewrites=[RET()],
       contract="""
         ensures
-            (self.sem() matches EV::Num(a) && rhs.sem() matches EV::Num(b)) ==> (r matches Ok(v) && v.sem() == EV::Num(self.sem()->Num_0 - rhs.sem()->Num_0)),   // @Evaluated.check_sub.numbers
-            (self.sem() matches EV::Com(a) && rhs.sem() matches EV::Com(b)) ==> (r matches Ok(v) && v.sem() == EV::Com(msub(self.sem()->Com_0, rhs.sem()->Com_0))),   // @Evaluated.check_sub.commodities_pointwise
-            ((self.sem() is Num) != (rhs.sem() is Num)) ==> r == Err::<Self, EvalError>(EvalError::UnmatchingOperation),   // @Evaluated.check_sub.rejects_mixed
+            ev_sub(self.sem(), rhs.sem()) matches Some(o) ==> (r matches Ok(v) && v.sem() == o),                    // @Evaluated.check_sub.exact
+            ev_sub(self.sem(), rhs.sem()) is None ==> r == Err::<Self, EvalError>(EvalError::UnmatchingOperation),   // @Evaluated.check_sub.rejects_mixed
 """),
     U("Evaluated::check_mul", EV, [r"impl<'ctx> Evaluated<'ctx>", r"pub fn check_mul\b"], fn="check_mul", wrap=IMPL_EV,
       rewrites=[RET()],
       contract="""
         ensures
-            (self.sem() matches EV::Num(a) && rhs.sem() matches EV::Num(b)) ==> (r matches Ok(v) && v.sem() == EV::Num(self.sem()->Num_0 * rhs.sem()->Num_0)),   // @Evaluated.check_mul.numbers
-            (self.sem() matches EV::Com(a) && rhs.sem() matches EV::Num(b)) ==> (r matches Ok(v) && v.sem() == EV::Com(mscale(self.sem()->Com_0, rhs.sem()->Num_0))),   // @Evaluated.check_mul.amount_times_number
-            (self.sem() matches EV::Num(a) && rhs.sem() matches EV::Com(b)) ==> (r matches Ok(v) && v.sem() == EV::Com(mscale(rhs.sem()->Com_0, self.sem()->Num_0))),   // @Evaluated.check_mul.number_times_amount
+            ev_mul(self.sem(), rhs.sem()) matches Some(o) ==> (r matches Ok(v) && v.sem() == o),                    // @Evaluated.check_mul.exact
             // multiplying two commodity amounts is ill-typed
-            (self.sem() is Com && rhs.sem() is Com) ==> r == Err::<Self, EvalError>(EvalError::UnmatchingOperation),   // @Evaluated.check_mul.rejects_two_amounts
+            ev_mul(self.sem(), rhs.sem()) is None ==> r == Err::<Self, EvalError>(EvalError::UnmatchingOperation),   // @Evaluated.check_mul.rejects_two_amounts
 """),
     U("Evaluated::check_div", EV, [r"impl<'ctx> Evaluated<'ctx>", r"pub fn check_div\b"], fn="check_div", wrap=IMPL_EV,
       rewrites=[RET(), ("R11-ctor-as-fn", ".map(Evaluated::Commodities)",
@@ -105,19 +101,10 @@ EVALUATED = [
                 ("R20-into-to-from", "Evaluated::Commodities(ret.into())", "Evaluated::Commodities(Amount::from(ret))", 1)],
       contract="""
         ensures
-            ev_is_zero(rhs.sem()) ==> r == Err::<Self, EvalError>(EvalError::DivideByZero),   // @Evaluated.check_div.rejects_zero_divisor
-            (!ev_is_zero(rhs.sem()) && self.sem() is Num && rhs.sem() is Num) ==>
-                (r is Ok && r->Ok_0.sem() is Num && r->Ok_0.sem()->Num_0 * rhs.sem()->Num_0 == self.sem()->Num_0),   // @Evaluated.check_div.numbers
-            (!ev_is_zero(rhs.sem()) && self.sem() is Com && rhs.sem() is Num) ==>
-                ((r is Ok && r->Ok_0.sem() is Com && r->Ok_0.sem()->Com_0.dom() == self.sem()->Com_0.dom()
-                    && forall|c: Commodity| self.sem()->Com_0.contains_key(c) ==> #[trigger] r->Ok_0.sem()->Com_0[c] * rhs.sem()->Num_0 == self.sem()->Com_0[c])
-                 || r == Err::<Self, EvalError>(EvalError::NumberOverflow)),   // @Evaluated.check_div.amount_by_number
-            // number / amount only for a single-commodity amount; amount / amount never
-            (!ev_is_zero(rhs.sem()) && self.sem() is Num && rhs is Commodities && rhs->Commodities_0.ncomm() != 1) ==> r is Err,   // @Evaluated.check_div.number_by_multi_rejected
-            (!ev_is_zero(rhs.sem()) && self.sem() is Num && rhs is Commodities && rhs->Commodities_0.ncomm() == 1) ==>
-                ((r is Ok && r->Ok_0.sem() is Com && r->Ok_0.sem()->Com_0.dom() == set![rhs->Commodities_0.single_entry().commodity]
-                    && r->Ok_0.sem()->Com_0[rhs->Commodities_0.single_entry().commodity] * rhs->Commodities_0.single_entry().v() == self.sem()->Num_0)
-                 || r == Err::<Self, EvalError>(EvalError::NumberOverflow)),   // @Evaluated.check_div.number_by_single
-            (!ev_is_zero(rhs.sem()) && self.sem() is Com && rhs.sem() is Com) ==> r == Err::<Self, EvalError>(EvalError::UnmatchingOperation),   // @Evaluated.check_div.rejects_two_amounts
+            ev_is_zero(rhs.sem()) ==> r == Err::<Self, EvalError>(EvalError::DivideByZero),                          // @Evaluated.check_div.rejects_zero_divisor
+            // number/number, amount/number, number/single-commodity amount; amount/amount and number/multi-commodity are ill-typed
+            ev_div(self.sem(), rhs.sem()) is None ==> r is Err,                                                      // @Evaluated.check_div.rejects_ill_typed
+            r matches Ok(v) ==> ev_div(self.sem(), rhs.sem()) == Some(v.sem()),                                      // @Evaluated.check_div.exact_quotient
+            ev_div(self.sem(), rhs.sem()) is Some ==> (r is Ok || r == Err::<Self, EvalError>(EvalError::NumberOverflow)),   // @Evaluated.check_div.welltyped_accepted
 """),
 ]
